@@ -255,7 +255,15 @@ type BlockCtx struct {
 	DepositIndex uint64
 	// EngineOK is the verdict the execution engine gives for this block's payload.
 	EngineOK bool
+	// Lenient: numbers that do not fit the 32-bit abstraction are clamped to Big instead of failing
+	// (blocks with arbitrary bytes); Clamped reports whether that happened.
+	Lenient bool
+	Clamped bool
 }
+
+// Big stands for "a number too large for the abstraction" in lenient mode: larger than every honest value,
+// small enough that adding slot / epoch sized numbers to it stays below 2^31.
+const Big = 1000000000
 
 func (p *proj) absHeader(h *common.BeaconBlockHeader) AbsHeader {
 	r := HeaderRoot(h)
@@ -275,7 +283,8 @@ func (p *proj) indexed(c *BlockCtx, ia *phase0.IndexedAttestation) IndexedAtt {
 
 // AbstractBlock describes a concrete signed block.
 func AbstractBlock(spec *common.Spec, env *common.BeaconBlockEnvelope, c *BlockCtx) (*Block, error) {
-	p := &proj{}
+	p := &proj{lenient: c.Lenient}
+	defer func() { c.Clamped = p.clamped }()
 	hFn := tree.GetHashFn()
 	bodyRoot := env.Body.HashTreeRoot(spec, hFn)
 	hdr := env.BeaconBlockHeader
